@@ -92,6 +92,7 @@ func nativeScalar(t types.Type, v value) (interface{}, bool) {
 
 // formatValue appends v (of static/dynamic type t) formatted with spec.
 func (f *fmtState) formatValue(t types.Type, v value, sp fmtSpec, top bool) {
+	v = unlazy(v)
 	f.depth++
 	defer func() { f.depth-- }()
 	if f.depth > 12 {
@@ -108,7 +109,7 @@ func (f *fmtState) formatValue(t types.Type, v value, sp fmtSpec, top bool) {
 			}
 			return
 		}
-		t, v = it.t, it.v
+		t, v = it.t, unlazy(it.v)
 	}
 	if verb == 'T' {
 		f.str(types.TypeString(t, nil))
